@@ -386,6 +386,8 @@ func c05Scenarios(tier string) []engine.Scenario {
 				w := world.NewWorld("B1", "B2")
 				flows.SeedAcct(s, w, flows.Acct{PID: U1, Password: P1})
 				flows.SeedAcct(s, w, flows.Acct{PID: U2, Password: P2, Unconfirmed: true})
+				// an unconfirmed account that holds no token at all (empty selector / verifier in storage)
+				flows.SeedAcct(s, w, flows.Acct{PID: "a0@x.io", Password: P2, Unconfirmed: true})
 				return w
 			},
 			Model: c05Model, Monitor: c05Monitor, State: c05State(tier != "thorough"), Cover: c05Cover,
